@@ -310,8 +310,11 @@ def execute(case):
         elif kind == 'adv':
             letter = step[1]
             counter += 1
-            if letter.endswith('-own') and (in_sess_before or not own):
-                # inside the session these would be the peer's legitimate say about our transfer, not out of place
+            glued = len(step) > 2 and step[2] == 'glue'
+            after_glued = bool(peer.held)
+            if letter.endswith('-own') and (in_sess_before or not own or glued or after_glued):
+                # inside the session these would be the peer's legitimate say about our transfer, not out of place (and
+                # next to a glued message - which may be a SESS_INIT - the state at arrival is not what it is now)
                 letter = letter[:-4]
             early = None
             if letter == 'ack-end-early':
@@ -364,6 +367,11 @@ def execute(case):
                 must = len(head) == 6 and (head[:4] != r.MAGIC or head[4] != 4)
             if ending and letter_eff not in MUST_ANSWER_ALWAYS:
                 must = False    # the property lists no required answer while the session is terminating
+            if after_glued:
+                # it shared its read with a held-back message, which may have changed the session state (a SESS_INIT, a
+                # SESS_TERM): only the global clauses are judged
+                must = False
+                out.label('after-glued')
             if established:
                 out.label('adv-established:' + letter)
                 if own and any(bid in [str(k) for k in hdl._tx_map] for bid, _d in own):
